@@ -661,14 +661,30 @@ class SymQ:
 
     def __round__(self, nd=None):
         if nd is not None:
-            raise NotImplementedError("round(x, n) on symbolic rational")
+            # round(x, n): the nearest multiple of 10^-n (n may be negative), stored again in the value's
+            # own arithmetic (a decimal is not a binary fraction: one more rounding error for floats)
+            nd = int(nd)
+            up, dn = (10 ** nd, 1) if nd >= 0 else (1, 10 ** (-nd))
+            scaled = SymQ(self.num * up, self.den * dn, self.kind,
+                          None if self.bound is None else self.bound * Fraction(up, dn), Fraction(self.err) * Fraction(up, dn))
+            scaled.sr = self.sr and is_pow2(up)
+            k = scaled.__round__()
+            kt = k.t if isinstance(k, SymInt) else z3.IntVal(int(k))
+            out = SymQ(kt * dn, up, self.kind, None if self.bound is None else self.bound + Fraction(dn, up), 0)
+            if self.kind in ("f", "mp") and not is_pow2(up):
+                prec = 53 if self.kind == "f" else PREC.mp_prec
+                if prec is None or out.bound is None:
+                    PREC.flag("unbounded", "round(x, %d)" % nd)
+                else:
+                    out.err = out.bound / (1 << prec)
+                    out.sr = True
+            return out
         if self.err:
             # the real value differs from the model by at most err; rounding is determined unless
             # the model value is within err of a tie.  Ties are at distance 0 or >= 1/(2 den).
             if self.err >= Fraction(1, 2 * self.den):
                 # the error can carry the value across a tie: any integer within 1/2 + err of the model value;
                 # the path becomes rounding-dependent (counterexamples on it must replay on the real code)
-                PREC.flag("round-inexact", "round() of value with error bound %s" % float(self.err))
                 r = engine.cur()
                 k = r.fresh_int("rnd")
                 e = Fraction(self.err)
@@ -676,7 +692,7 @@ class SymQ:
                 w = self.den * e.denominator + 2 * e.numerator * self.den      # (1/2 + err) * D
                 r.assume(z3.And(2 * e.denominator * (k * self.den - self.num) <= w,
                                 2 * e.denominator * (self.num - k * self.den) <= w))
-                r.approx = "round() of a value with rounding error bound %s" % float(e)
+                r.rounding_dependent(k != self.round_even_int().t)
                 return SymInt(k, bound=None if self.bound is None else int(self.bound) + 1)
             if self.sr and self.bound is not None and 2 * self.bound < (1 << 52):
                 # a single correctly rounded operation: an exact tie x.5 is representable, hence computed
@@ -686,6 +702,7 @@ class SymQ:
             k = r.fresh_int("rnd")
             # |k - n/d| <= 1/2  (either neighbour at an exact tie: the sign of the error decides)
             r.assume(z3.And(2 * (k * self.den - self.num) <= self.den, 2 * (self.num - k * self.den) <= self.den))
+            r.rounding_dependent(z3.Or(2 * (k * self.den - self.num) == self.den, 2 * (self.num - k * self.den) == self.den))
             return SymInt(k, bound=None if self.bound is None else int(self.bound) + 1)
         return self.round_even_int()
 
@@ -791,6 +808,26 @@ class SymReal:
     @staticmethod
     def _nonfinite(o):
         return isinstance(o, float) and (o != o or o in (math.inf, -math.inf))
+
+    def __round__(self, nd=None):
+        """round(x) / round(x, n) in the exact-real model: the nearest integer multiple of 10^-n; round(x) takes
+        an exact tie half to even, round(x, n > 0) leaves a tie open (rounding-dependent)."""
+        r = engine.cur()
+        n = 0 if nd is None else int(nd)
+        scale = z3.RealVal(10) ** n if n >= 0 else 1 / (z3.RealVal(10) ** (-n))
+        scale = z3.simplify(scale)
+        y = self.t * scale
+        k = r.fresh_int("rnd")
+        kr = z3.ToReal(k)
+        r.assume(z3.And(2 * (kr - y) <= 1, 2 * (y - kr) <= 1))
+        if n == 0:
+            r.assume(z3.Implies(z3.Or(2 * (kr - y) == 1, 2 * (y - kr) == 1), k % 2 == 0))
+        else:
+            # a decimal tie is almost never a binary64 value: which neighbour wins depends on the representation error
+            r.rounding_dependent(z3.Or(2 * (kr - y) == 1, 2 * (y - kr) == 1))
+        if nd is None:
+            return SymInt(k)
+        return SymReal(kr / scale)
 
     def _sign(self):
         """fork on the sign of a finite symbolic real: -1, 0, 1"""
